@@ -17,7 +17,10 @@ from mdsa.astutil import call_attr, kwarg, local_calls, norm
 from mdsa.cfg import walk_local
 from mdsa.loader import AnalysisError
 
+from mdsa import match as M
+
 from .common import Ctx, local_defs, node_of
+from .sem import F
 
 R = "ih5.record"
 EXPLANATION = (
@@ -32,13 +35,15 @@ EXPLANATION = (
 )
 NOT_DECIDED = "'accepted exactly when': that every valid set opens (completeness) and collision resistance of the digest; behaviour for each single corrupted byte at run time"
 
+H = "hashsum_file(__f, skip_bytes=USER_BLOCK_SIZE)"
+# predicate -> literals (each with alternative spellings); the function must not return normally when all hold
 REQUIRED = {
-    "record uuid differs": {"ub.record_uuid != self.ih5_uuid"},
-    "hash required but missing": {"check_hashsum", "ub.hdf5_hashsum is None"},
-    "stored hash differs from payload hash": {"ub.hdf5_hashsum is not None", "ub.hdf5_hashsum != hashsum_file(filename, skip_bytes=USER_BLOCK_SIZE)"},
-    "patch index not increasing": {"prev is not None", "ub.patch_index <= prev.patch_index"},
-    "patch without prev_patch": {"prev is not None", "ub.prev_patch is None"},
-    "prev_patch is not the predecessor": {"prev is not None", "ub.prev_patch != prev.patch_uuid"},
+    "record uuid differs": [["ub.record_uuid != self.ih5_uuid", "self.ih5_uuid != ub.record_uuid"]],
+    "hash required but missing": [["check_hashsum"], ["ub.hdf5_hashsum is None", "not ub.hdf5_hashsum"]],
+    "stored hash differs from payload hash": [["ub.hdf5_hashsum is not None", "ub.hdf5_hashsum"], [f"ub.hdf5_hashsum != {H}", f"{H} != ub.hdf5_hashsum"]],
+    "patch index not increasing": [["prev is not None", "prev"], ["ub.patch_index <= prev.patch_index", "not ub.patch_index > prev.patch_index"]],
+    "patch without prev_patch": [["prev is not None", "prev"], ["ub.prev_patch is None", "not ub.prev_patch"]],
+    "prev_patch is not the predecessor": [["prev is not None", "prev"], ["ub.prev_patch != prev.patch_uuid", "prev.patch_uuid != ub.prev_patch"]],
 }
 
 
@@ -58,152 +63,93 @@ def run(P, rep, tier):
     rep.floor("C04.R4", 5)
 
 
-def dnf(e: ast.AST, neg: bool, subst: Dict[str, str]) -> List[FrozenSet[str]]:
-    if isinstance(e, ast.UnaryOp) and isinstance(e.op, ast.Not):
-        return dnf(e.operand, not neg, subst)
-    if isinstance(e, ast.BoolOp):
-        is_and = isinstance(e.op, ast.And) != neg
-        parts = [dnf(v, neg, subst) for v in e.values]
-        if is_and:
-            return [frozenset().union(*combo) for combo in itertools.product(*parts)]
-        return [c for p in parts for c in p]
-    t = norm(e)
-    if neg:
-        FL = {" is not ": " is ", " is ": " is not ", " != ": " == ", " == ": " != ", " <= ": " > ", " > ": " <= ", " < ": " >= ", " >= ": " < "}
-        for a, b in FL.items():
-            if a in t:
-                t = t.replace(a, b, 1)
-                break
-        else:
-            t = f"not {t}"
-    for k, v in subst.items():
-        t = t.replace(k, v) if t.endswith(k) or f"{k} " in t or f" {k}" in t else t
-    return [frozenset([t])]
-
-
-def raise_predicates(fi) -> List[Tuple[FrozenSet[str], ast.Raise, List[ast.If]]]:
-    """For every raise: DNF conjunct sets of the enclosing if-tests (with polarity), names of single-assignment locals expanded."""
-    defs = local_defs(fi)
-    subst = {}
-    for name, ds in defs.items():
-        vals = [v for k, v in ds if v is not None and k == "assign"]
-        if len(vals) == 1 and isinstance(vals[0], ast.Call):
-            subst[name] = norm(vals[0])
-    out = []
-
-    def visit(body, conds):
-        for st in body:
-            if isinstance(st, ast.Raise):
-                parts = [dnf(t, not pos, subst) for t, pos in conds] or [[frozenset()]]
-                for combo in itertools.product(*parts):
-                    out.append((frozenset().union(*combo), st, [t for t, _ in conds]))
-            elif isinstance(st, ast.If):
-                visit(st.body, conds + [(st.test, True)])
-                visit(st.orelse, conds + [(st.test, False)])
-            elif isinstance(st, (ast.With, ast.For, ast.While, ast.Try)):
-                visit(st.body, conds)
-
-    visit(fi.node.body, [])
-    return out
-
-
 def r1_check_table(P, rep, ctx):
     fi = P.func(f"{R}.IH5Record._check_ublock")
-    g = ctx.cfg(fi)
-    preds = raise_predicates(fi)
-    if len(preds) < 4:
-        raise AnalysisError(f"C04.R1: only {len(preds)} raising predicates recognised in _check_ublock")
-    for name, want in REQUIRED.items():
-        hits = [(p, r, tests) for p, r, tests in preds if want <= p and len(p - want) == 0]
-        weaker = [(p, r, tests) for p, r, tests in preds if want <= p and len(p - want) > 0]
-        rep.check(bool(hits), "C04.R1", fi.qual, f"check present: raises iff {sorted(want)} ({name})", fi.loc(hits[0][1]) if hits else fi.loc(), construct=f"predicate {name}: {sorted(want)}",
-                  message=f"_check_ublock has no check that raises exactly when {sorted(want)} ({name})" + (f"; closest is additionally conditioned on {sorted(weaker[0][0] - want)}" if weaker else "") + ": such file sets open as a record")
-        if not hits:
+    f = F(ctx, fi)
+    if len(f.raises()) < 4 and len([n for n in f.g.nodes if n.kind == "test"]) < 4:
+        raise AnalysisError(f"C04.R1: only {len(f.raises())} raise statements recognised in _check_ublock")
+    for name, lits in REQUIRED.items():
+        r = f.refuses_when(lits)
+        shown = [a[0] for a in lits]
+        rep.check(r is not None, "C04.R1", fi.qual, f"check present: {shown} is tested ({name})", fi.loc(), construct=f"predicate {name}: {shown}",
+                  message=f"_check_ublock has no check that raises exactly when {shown} ({name}): such file sets open as a record")
+        if r is None:
             continue
-        # un-bypassable: the guarding tests lie on every path to the normal exit (nested ones: from the T edge of the outer test)
-        p, r, tests = hits[0]
-        tnodes = [node_of(g, t) for t in tests]
-        if None in tnodes:
-            raise AnalysisError("C04.R1: test node not found in CFG")
-        ok = g.every_path_passes([tnodes[0]], g.exit)
-        for outer, inner in zip(tnodes, tnodes[1:]):
-            ok = ok and g.every_path_passes([inner], g.exit, src=outer, src_label="T")
-        # the raise itself must leave abnormally
-        rn = node_of(g, r)
-        rep.check(ok, "C04.R1", fi.qual, f"check cannot be bypassed: its test lies on every path to a normal return ({name})", fi.loc(r), construct=f"bypass of {name}",
-                  message=f"_check_ublock can return normally without evaluating the check '{name}' (an earlier return skips it)", path=g.path_text(g.find_path(g.exit, avoid=[tnodes[0]])))
+        rep.check(r, "C04.R1", fi.qual, f"check cannot be bypassed: no normal return while {shown} ({name})", fi.loc(), construct=f"bypass of {name}",
+                  message=f"_check_ublock can return normally although {shown} holds ('{name}': the check is missing, weakened by an extra condition, or skipped by an earlier return)")
     pvals = [norm(d) for d in fi.node.args.defaults]
     rep.check(pvals[-1:] == ["True"], "C04.R1", fi.qual, "check_hashsum defaults to True", fi.loc(), construct="check_hashsum default", message=f"check_hashsum defaults to {pvals[-1:]}")
 
 
 def r2_open_coverage(P, rep, ctx):
     fi = P.func(f"{R}.IH5Record._open")
-    g = ctx.cfg(fi)
-    rets = [n.idx for n in g.nodes if isinstance(n.stmt, ast.Return) and n.stmt.value is not None]
+    f = F(ctx, fi)
+    g = f.g
+    rets = [i for i, v in f.returns() if v is not None]
     if not rets:
         raise AnalysisError("C04.R2: no return in _open")
     rv = norm(g.nodes[rets[0]].stmt.value)
 
     def must(nodes, what, construct, msg):
-        ok = bool(nodes) and all(g.every_path_passes(nodes, r) for r in rets)
-        rep.check(ok, "C04.R2", fi.qual, what, fi.loc(g.nodes[nodes[0]].stmt) if nodes else fi.loc(), construct=construct, message=msg, path=g.path_text(g.find_path(rets[0], avoid=nodes)) if not ok else None)
+        ok = bool(nodes) and all(f.hit_before(r, nodes=nodes) for r in rets)
+        rep.check(ok, "C04.R2", fi.qual, what, f.loc(nodes[0]) if nodes else fi.loc(), construct=construct, message=msg, path=f.witness(rets[0], nodes) if not ok else None)
         return ok
 
-    sort = [n.idx for n in g.nodes if any(call_attr(c) == "sort" and "__files__" in norm(c.func) for c in g.calls(n.idx)) or (n.kind == "stmt" and isinstance(n.stmt, ast.Assign) and "sorted(" in norm(n.stmt.value) and "__files__" in norm(n.stmt.targets[0]))]
-    must(sort, "files are sorted by patch index", "sort of __files__", "_open does not sort the files by patch_index before checking them")
-    defs = local_defs(fi)
-    hp = [norm(v) for k, v in defs.get("has_patches", []) if v is not None]
-    calls = [(n.idx, c) for n in g.nodes for c in g.calls(n.idx) if call_attr(c) == "_check_ublock"]
+    sort = f.calls(f"{rv}.__files__.sort(key=___)") + [i for i, v, b in f.stores(f"{rv}.__files__") if isinstance(v, ast.Call) and norm(v.func) == "sorted" and kwarg(v, "key") is not None]
+    keyed = [c for _, c, b in f.call_sites(f"{rv}.__files__.sort(___)") + f.call_sites("sorted(___)") if kwarg(c, "key") is not None and "patch_index" in norm(kwarg(c, "key"))]
+    must(sort if keyed else [], "files are sorted by patch index", "sort of __files__", "_open does not sort the files by patch_index before checking them")
+    calls = f.call_sites(f"{rv}._check_ublock(___)")
     if len(calls) < 3:
         raise AnalysisError(f"C04.R2: only {len(calls)} _check_ublock calls in _open")
 
     def args(c):
-        return [norm(a) for a in c.args] + [f"{k.arg}={norm(k.value)}" for k in c.keywords]
+        return [f.x(a) for a in c.args] + [f"{k.arg}={f.x(k.value)}" for k in c.keywords]
 
-    base = [n for n, c in calls if args(c)[:3] == [f"{rv}.__files__[0].filename", f"{rv}._ublock(0)", "None"]]
+    many = (f"len({rv}.__files__) > 1", f"len({rv}.__files__) >= 2", f"1 < len({rv}.__files__)")
+    base = [n for n, c, b in calls if args(c)[:3] == [f"{rv}.__files__[0].filename", f"{rv}._ublock(0)", "None"]]
     must(base, "the first container is checked as base (no predecessor)", "_check_ublock for index 0", "_open does not check the first container with _check_ublock(files[0], ublock(0), None, ...)")
-    for n, c in calls:
+    for n, c, b in calls:
         if n in base:
             a3 = args(c)[3] if len(args(c)) > 3 else None
-            ok = a3 in ("has_patches", f"len({rv}.__files__) > 1") and (a3 != "has_patches" or hp == [f"len({rv}.__files__) > 1"])
-            rep.check(ok, "C04.R2", fi.qual, "the base must carry a verified hash as soon as there are patches", fi.loc(c), construct=f"check_hashsum of base = {a3}", message=f"base container is checked with check_hashsum={a3} (must be 'more than one file')")
+            rep.check(a3 in many, "C04.R2", fi.qual, "the base must carry a verified hash as soon as there are patches", fi.loc(c), construct="check_hashsum of base", message=f"base container is checked with check_hashsum={a3} (must be 'more than one file')")
     # base must not have a predecessor
-    tests = [t.idx for t in g.nodes if t.kind == "test" and norm(t.exprs[0]) == f"not allow_baseless and {rv}._ublock(0).prev_patch is not None"]
-    ok = must(tests, "a first container with a predecessor link is refused (missing base)", "missing-base test", "_open does not refuse a first container whose prev_patch is set (missing base)")
-    if ok:
-        rep.check(all(g.exit not in g.reach([b for b, l in g.succ[t] if l == "T"]) for t in tests), "C04.R2", fi.qual, "missing base raises", fi.loc(), construct="missing-base raise", message="the missing-base test does not raise")
-    ab = [norm(v) for k, v in defs.get("allow_baseless", []) if v is not None]
+    lits = [["not allow_baseless", "not kwargs.pop('allow_baseless', False)"], [f"{rv}._ublock(0).prev_patch is not None", f"{rv}._ublock(0).prev_patch"]]
+    r = f.refuses_when(lits)
+    rep.check(bool(r), "C04.R2", fi.qual, "a first container with a predecessor link is refused (missing base)", fi.loc(), construct="missing-base test", message="_open does not refuse a first container whose prev_patch is set (missing base)")
+    ab = sorted({f.x(c) for _, c, b in f.call_sites("kwargs.pop('allow_baseless', ___)")})
     rep.check(ab == ["kwargs.pop('allow_baseless', False)"], "C04.R2", fi.qual, "baseless sets are only accepted on explicit request (default False)", fi.loc(), construct=f"allow_baseless = {ab}", message=f"allow_baseless is {ab}")
     # middle containers
-    loops = [n for n in g.nodes if n.kind == "for" and norm(n.stmt.iter) == f"range(1, len({rv}.__files__) - 1)"]
+    loops = [n for n in g.nodes if n.kind == "for" and f.x(n.stmt.iter) == f"range(1, len({rv}.__files__) - 1)"]
     okm = False
     if loops:
         lv = norm(loops[0].stmt.target)
-        fdefs = {norm(t): norm(st.value) for st in loops[0].stmt.body if isinstance(st, ast.Assign) for t in st.targets}
-        for n, c in calls:
+        body_nodes = set()
+        for st in loops[0].stmt.body:
+            body_nodes |= {id(x) for x in ast.walk(st)}
+        for n, c, b in calls:
             a = args(c)
-            a0 = fdefs.get(a[0], a[0])
-            if any(c in ast.walk(b) for b in loops[0].stmt.body) and a0 == f"{rv}.__files__[{lv}].filename" and a[1:4] == [f"{rv}._ublock({lv})", f"{rv}._ublock({lv} - 1)", "True"]:
+            in_loop = g.nodes[n].stmt is not None and id(g.nodes[n].stmt) in body_nodes
+            if in_loop and a[:4] == [f"{rv}.__files__[{lv}].filename", f"{rv}._ublock({lv})", f"{rv}._ublock({lv} - 1)", "True"]:
                 okm = True
         must([loops[0].idx], "every middle container is visited", "middle loop", "the loop over the middle containers is not on every path")
     rep.check(okm, "C04.R2", fi.qual, "every middle container i in [1, n-2] is checked against its predecessor i-1 with its hash required", fi.loc(loops[0].stmt) if loops else fi.loc(), construct="middle containers check",
               message="_open does not check every middle container with _check_ublock(files[i], ublock(i), ublock(i-1), True) for i in range(1, len-1): a gap, fork or tampered middle patch is accepted")
-    last = [n for n, c in calls if args(c)[:4] == [f"{rv}.__files__[-1].filename", f"{rv}._ublock(-1)", f"{rv}._ublock(-2)", "False"]]
-    ht = [t.idx for t in g.nodes if t.kind == "test" and norm(t.exprs[0]) in ("has_patches", f"len({rv}.__files__) > 1")]
-    ok = bool(last) and bool(ht) and all(g.every_path_passes(last, r, src=t, src_label="T") for t in ht for r in rets) and must(ht, "patched sets are recognised", "has_patches test", "has_patches test missing")
+    last = [n for n, c, b in calls if args(c)[:4] == [f"{rv}.__files__[-1].filename", f"{rv}._ublock(-1)", f"{rv}._ublock(-2)", "False"]]
+    patched = f.tests(*many)
+    ok = bool(last) and bool(patched) and all(f.hit_before(r, nodes=last, edges=f.neg(patched)) for r in rets)
     rep.check(ok, "C04.R2", fi.qual, "the newest container of a patched set is checked against its predecessor (hash optional, but verified when present)", fi.loc(), construct="newest container check", message="_open does not check the newest patch against its predecessor -2")
-    ut = [t.idx for t in g.nodes if t.kind == "test" and norm(t.exprs[0]) == f"len(cn_uuids) != len({rv}.__files__)"]
-    ok = must(ut, "patch uuids must be pairwise distinct", "distinct uuid test", "_open does not refuse file sets with a duplicated patch_uuid")
-    cu = [norm(v) for k, v in defs.get("cn_uuids", []) if v is not None]
-    rep.check(cu == [f"{{{rv}._ublock(f).patch_uuid for f in {rv}.__files__}}"] and all(g.exit not in g.reach([b for b, l in g.succ[t] if l == "T"]) for t in ut), "C04.R2", fi.qual, "the uuid set is taken over all containers and a duplicate raises", fi.loc(), construct=f"cn_uuids = {cu}", message=f"distinct-uuid check is computed from {cu} / does not raise")
-    lb = [norm(v) for k, v in defs.get(f"{rv}._ublocks", []) if v is not None]
-    rep.check(f"{rv}._ublocks = {{Path(path): IH5UserBlock.load(path) for path in paths}}" in norm(fi.node), "C04.R2", fi.qual, "every given file's user block is loaded (and parsed)", fi.loc(), construct="user block loading", message="_open does not load the user block of every given path")
-    opened = [n for n in g.nodes if n.kind == "stmt" and isinstance(n.stmt, ast.Assign) and any(norm(t) == f"{rv}.__files__" for t in n.stmt.targets)]
-    ok = bool(opened) and all(isinstance(n.stmt.value, ast.ListComp) and norm(n.stmt.value.generators[0].iter) == "paths" and not n.stmt.value.generators[0].ifs and "h5py.File(" in norm(n.stmt.value.elt) for n in opened)
-    rep.check(ok, "C04.R2", fi.qual, "every given file is opened and takes part in the checks (one handle per element of `paths`)", fi.loc(opened[0].stmt) if opened else fi.loc(), construct="file list = one handle per given path",
+    dup = [[f"len({{{rv}._ublock(__f).patch_uuid for __f in {rv}.__files__}}) != len({rv}.__files__)", f"len({rv}.__files__) != len({{{rv}._ublock(__f).patch_uuid for __f in {rv}.__files__}})"]]
+    r = f.refuses_when(dup)
+    rep.check(bool(r), "C04.R2", fi.qual, "patch uuids must be pairwise distinct (taken over all containers; a duplicate raises)", fi.loc(), construct="distinct uuid test", message="_open does not refuse file sets with a duplicated patch_uuid")
+    lb = [v for i, v, b in f.stores(f"{rv}._ublocks")]
+    ok = bool(lb) and all(isinstance(v, ast.DictComp) and f.x(v.generators[0].iter) == fi.params[1] and not v.generators[0].ifs and M.match("IH5UserBlock.load(__p)", v.value) is not None for v in lb)
+    rep.check(ok, "C04.R2", fi.qual, "every given file's user block is loaded (and parsed)", fi.loc(), construct="user block loading", message="_open does not load the user block of every given path")
+    opened = [(i, v) for i, v, b in f.stores(f"{rv}.__files__") if not (isinstance(v, ast.Call) and norm(v.func) == "sorted")]
+    ok = bool(opened) and all(isinstance(v, ast.ListComp) and f.x(v.generators[0].iter) == fi.params[1] and not v.generators[0].ifs and "h5py.File(" in norm(v.elt) for i, v in opened)
+    rep.check(ok, "C04.R2", fi.qual, "every given file is opened and takes part in the checks (one handle per element of `paths`)", f.loc(opened[0][0]) if opened else fi.loc(), construct="file list = one handle per given path",
               message="_open does not open one container per given path (e.g. files are keyed by patch_index first): a duplicated / forked container is silently dropped instead of making the open fail")
-    emp = [t for t in g.nodes if t.kind == "test" and norm(t.exprs[0]) == "not paths"]
-    rep.check(bool(emp) and all(g.exit not in g.reach([b for b, l in g.succ[t.idx] if l == "T"]) for t in emp), "C04.R2", fi.qual, "an empty file list is refused", fi.loc(), construct="empty list", message="_open accepts an empty list of containers")
+    emp = f.tests(f"not {fi.params[1]}", f"len({fi.params[1]}) == 0")
+    rep.check(f.refuses(emp), "C04.R2", fi.qual, "an empty file list is refused", fi.loc(), construct="empty list", message="_open accepts an empty list of containers")
 
 
 def r3_subclass(P, rep, ctx):
@@ -218,41 +164,51 @@ def r3_subclass(P, rep, ctx):
     sup = [n.idx for n in g.nodes if any(call_attr(c) == "_open" and norm(c.func.value) == "super()" for c in g.calls(n.idx))]
     rets = [n.idx for n in g.nodes if isinstance(n.stmt, ast.Return) and n.stmt.value is not None]
     rep.check(bool(sup) and all(g.every_path_passes(sup, r) for r in rets), "C04.R3", fi.qual, "the override opens through the parent's _open (all chain checks)", fi.loc(), construct="super()._open", message="IH5MFRecord._open does not go through super()._open on every path")
+    f = F(ctx, fi)
+    rv = norm(g.nodes[rets[0]].stmt.value) if rets else "ret"
+    link = f"IH5UBExtManifest.get({rv}._ublock(-1))"
+    linked = [f"{link} is not None", link]
+    hashed = f.call_sites("hashsum_file(__m)")
+    mvars = sorted({norm(b["__m"]) for _, c, b in hashed})
+    rep.check(len(mvars) == 1 and all(not c.keywords for _, c, b in hashed), "C04.R3", fi.qual, "the manifest is verified by the hash of its raw file bytes", fi.loc(), construct="manifest hash source",
+              message=f"the manifest hash is not computed from the manifest file's bytes (hashsum_file over {mvars or 'nothing'}): edits that survive parse + re-serialise (whitespace, key order, extra keys, case of hex digits) are accepted")
+    mv = mvars[0] if mvars else "manifest_file"
+    miss = f.refuses_when([linked, [f"not {mv}.is_file()", f"not {mv}.exists()"]])
+    differ = f.refuses_when([linked, [f"{link}.manifest_hashsum != hashsum_file({mv})", f"hashsum_file({mv}) != {link}.manifest_hashsum"]])
+    rep.check(bool(miss) and bool(differ), "C04.R3", fi.qual, "when the container names a manifest: missing file or differing hash raises, on every path", fi.loc(), construct="manifest existence + hash check", message="IH5MFRecord._open can succeed although the linked manifest is missing or its hash differs")
     defs = local_defs(fi)
-    ck = [norm(v) for k, v in defs.get("chksum", []) if v is not None]
-    rep.check(ck == ["hashsum_file(manifest_file)"], "C04.R3", fi.qual, "the manifest is verified by the hash of its raw file bytes", fi.loc(), construct=f"chksum = {ck}",
-              message=f"the manifest hash is computed as {ck}, not from the file's bytes: edits that survive parse + re-serialise (whitespace, key order, extra keys, case of hex digits) are accepted")
-    ext_t = [t.idx for t in g.nodes if t.kind == "test" and norm(t.exprs[0]) == "ubext is not None"]
-    miss = [t.idx for t in g.nodes if t.kind == "test" and norm(t.exprs[0]) == "not manifest_file.is_file()"]
-    cmp_ = [t.idx for t in g.nodes if t.kind == "test" and norm(t.exprs[0]) == "ubext.manifest_hashsum != chksum"]
-    ok = bool(ext_t) and bool(miss) and bool(cmp_)
-    for lst in (miss, cmp_):
-        ok = ok and all(g.exit not in g.reach([b for b, l in g.succ[t] if l == "T"]) for t in lst) and all(g.every_path_passes(lst, r, src=e, src_label="T") for e in ext_t for r in rets)
-    ok = ok and all(g.every_path_passes(ext_t, r) for r in rets)
-    rep.check(ok, "C04.R3", fi.qual, "when the container names a manifest: missing file or differing hash raises, on every path", fi.loc(), construct="manifest existence + hash check", message="IH5MFRecord._open can succeed although the linked manifest is missing or its hash differs")
-    mfd = [norm(v) for k, v in defs.get("manifest_file", []) if v is not None]
-    rep.check(sorted(mfd) == sorted(["kwargs.pop('manifest_file', None)", "cls._manifest_filepath(ret._files[-1].filename)"]), "C04.R3", fi.qual, "the manifest checked is the one given or the one next to the *newest* container", fi.loc(), construct=f"manifest_file = {mfd}",
+    mfd = [f.x(v) for k, v in defs.get(mv, []) if v is not None]
+    rep.check(sorted(mfd) == sorted(["kwargs.pop('manifest_file', None)", f"cls._manifest_filepath({rv}._files[-1].filename)"]), "C04.R3", fi.qual, "the manifest checked is the one given or the one next to the *newest* container", fi.loc(), construct=f"manifest_file = {mfd}",
               message=f"the manifest file is inferred as {mfd}: not the sidecar of the newest container")
-    ub = [norm(v) for k, v in defs.get("ubext", []) if v is not None]
-    rep.check(ub == ["IH5UBExtManifest.get(ub)"] and [norm(v) for k, v in defs.get("ub", []) if v is not None] == ["ret._ublock(-1)"], "C04.R3", fi.qual, "the manifest link is taken from the newest container's user block", fi.loc(), construct="ubext source", message="manifest link is not read from the newest container's user block")
-    load_after = [n.idx for n in g.nodes if n.kind == "stmt" and "IH5Manifest.parse_file(manifest_file)" in norm(n.stmt)]
-    rep.check(bool(load_after) and all(g.every_path_passes(cmp_, l) for l in load_after), "C04.R3", fi.qual, "the manifest is parsed only after its hash was verified", fi.loc(), construct="parse after verify", message="the manifest is parsed before its hash is verified")
+    inferred = [i for i, v, b in f.stores(mv) if "_manifest_filepath" in norm(v)]
+    not_given = f.tests(f"{mv} is None", f"not {mv}")
+    rep.check(bool(inferred) and bool(not_given) and f.all_hit_before(inferred, edges=not_given), "C04.R3", fi.qual, "an explicitly given manifest file is never replaced by the inferred one", fi.loc(), construct="given manifest wins", message="the inferred sidecar replaces an explicitly given manifest file")
+    differs_true = f.tests(f"{link}.manifest_hashsum != hashsum_file({mv})", f"hashsum_file({mv}) != {link}.manifest_hashsum")
+    load_after = f.calls(f"IH5Manifest.parse_file({mv})")
+    loads_any = f.calls("IH5Manifest.parse_file(___)", "IH5Manifest.parse_raw(___)", "IH5Manifest.parse_obj(___)")
+    rep.check(bool(load_after) and set(loads_any) <= set(load_after) and bool(differs_true) and f.all_hit_before(load_after, edges=f.neg(differs_true)), "C04.R3", fi.qual, "the manifest is parsed only after its hash was verified (and it is the verified file that is parsed)", fi.loc(), construct="parse after verify", message="the manifest is parsed before its hash is verified")
 
 
 def r4_magic_parse(P, rep, ctx):
     UB = f"{R}.IH5UserBlock"
     fi = P.func(f"{UB}._read_head_raw")
     g = ctx.cfg(fi)
-    tests = [t for t in g.nodes if t.kind == "test" and norm(t.exprs[0]) == "len(dat) != 3 or dat[0] != FORMAT_MAGIC_STR"]
-    ok = bool(tests) and all(all(isinstance(g.nodes[b].stmt, ast.Return) and norm(g.nodes[b].stmt.value) == "None" for b, l in g.succ[t.idx] if l == "T") for t in tests) and g.every_path_passes([t.idx for t in tests], g.exit)
+    f = F(ctx, fi)
+    real = [i for i, v in f.returns() if v is not None and not (isinstance(v, ast.Constant) and v.value is None)]
+    parts = f.tests("len(__d) != 3")
+    magic = f.tests("__d[0] != FORMAT_MAGIC_STR", "FORMAT_MAGIC_STR != __d[0]")
+    ok = bool(real) and bool(parts) and bool(magic) and not f.reaches(parts, real) and not f.reaches(magic, real) and f.all_hit_before(real, nodes=f.test_nodes(parts)) and f.all_hit_before(real, nodes=f.test_nodes(magic))
     rep.check(ok, "C04.R4", fi.qual, "wrong magic or not exactly three parts yields None", fi.loc(), construct="head test", message="_read_head_raw accepts a block with wrong magic / wrong number of parts")
-    rep.check("dat = probe.decode('utf-8').split('\\n')" in norm(fi.node), "C04.R4", fi.qual, "head is split on newlines", fi.loc(), construct="head split", message="_read_head_raw does not split the head on '\\n'")
+    sp = [f.x(c) for _, c, b in f.call_sites("__p.decode('utf-8').split('\\n')")]
+    rep.check(bool(sp), "C04.R4", fi.qual, "head is split on newlines", fi.loc(), construct="head split", message="_read_head_raw does not split the head on '\\n'")
     fi = P.func(f"{UB}.load")
-    g = ctx.cfg(fi)
-    tests = [t for t in g.nodes if t.kind == "test" and norm(t.exprs[0]) == "head is None"]
-    ok = bool(tests) and all(g.exit not in g.reach([b for b, l in g.succ[t.idx] if l == "T"]) for t in tests) and g.every_path_passes([t.idx for t in tests], g.exit)
+    f = F(ctx, fi)
+    g = f.g
+    nohead = f.tests("__h is None")
+    ok = f.refuses(nohead) and f.hit_before(g.exit, nodes=f.test_nodes(nohead))
     rep.check(ok, "C04.R4", fi.qual, "a file without a valid IH5 head raises ValueError", fi.loc(), construct="invalid head raises", message="IH5UserBlock.load does not raise for a file without valid head")
-    rep.check("ret = IH5UserBlock.parse_obj(json.loads(head[1]))" in norm(fi.node), "C04.R4", fi.qual, "the block is parsed through the typed model", fi.loc(), construct="typed parse", message="the user block is not validated through IH5UserBlock.parse_obj")
+    po = f.call_sites("IH5UserBlock.parse_obj(json.loads(__h[1]))") + f.call_sites("cls.parse_obj(json.loads(__h[1]))") + f.call_sites("IH5UserBlock.parse_raw(__h[1])") + f.call_sites("cls.parse_raw(__h[1])")
+    rep.check(bool(po) and f.hit_before(g.exit, nodes=[i for i, c, b in po]), "C04.R4", fi.qual, "the block is parsed through the typed model", fi.loc(), construct="typed parse", message="the user block is not validated through IH5UserBlock.parse_obj")
     from .common import require_total
 
     for q in (f"{UB}.load", f"{UB}._read_head_raw", f"{R}.IH5Record._open", "ih5.manifest.IH5MFRecord._open", f"{R}.hashsum_file"):
